@@ -42,22 +42,21 @@ def row(vector):
 class HashArray(np.ndarray):
     def __new__(cls, val):
         """Create a new hashable array"""
-
-        obj = np.asarray(val).view(cls)
+        arr = np.asarray(val)
+        if arr.flags.writeable:
+            # Use a copy so that neither the key of a cache changes when the caller changes the array, nor the array
+            # of the caller is made read-only
+            arr = arr.copy()
+        obj = arr.view(cls)
         obj.flags.writeable = False
         return obj
-
-    def __array_finalize__(self, obj):
-        """Called automatically when a new HashArray is created"""
-        if obj is None:
-            return
-
-        obj.flags.writeable = False
 
     def __hash__(self):
         return hash(self.tobytes())
 
     def __eq__(self, other):
+        if not isinstance(other, np.ndarray) or self.shape != other.shape or self.dtype != other.dtype:
+            return False
         return self.data.tobytes() == other.data.tobytes()
 
 
@@ -87,6 +86,9 @@ def hashable(func):
         for k, v in kwargs.items():
             if isinstance(v, np.ndarray):
                 kwargs[k] = HashArray(v)
-        return func(*new_args_list, **kwargs)
+        result = func(*new_args_list, **kwargs)
+
+        # Hand out a copy, the cached array is shared by all calls with equal arguments
+        return result.copy() if isinstance(result, np.ndarray) else result
 
     return wrapper
